@@ -73,6 +73,7 @@ func (l *link) pump(from net.Conn, toA bool, n *Net) {
 			f := append([]byte{}, buf[:end]...)
 			buf = buf[end:]
 			l.mu.Lock()
+			dead := l.dead
 			if !l.dead {
 				if toA {
 					l.qIA = append(l.qIA, f)
@@ -81,9 +82,23 @@ func (l *link) pump(from net.Conn, toA bool, n *Net) {
 				}
 			}
 			l.mu.Unlock()
+			if !dead {
+				st := n.stamp(f, toA)
+				n.mu.Lock()
+				n.Events = append(n.Events, st)
+				n.mu.Unlock()
+			}
 		}
 		if err != nil {
 			// the engine closed its end: the other side sees the close, what is in flight is lost
+			l.mu.Lock()
+			already := l.dead
+			l.mu.Unlock()
+			if !already {
+				n.mu.Lock()
+				n.Closes = append(n.Closes, Close{T: n.Now(), FromI: toA})
+				n.mu.Unlock()
+			}
 			l.kill()
 			return
 		}
@@ -97,12 +112,70 @@ type Net struct {
 	closed   bool
 	cur      *link
 	allow    bool // dials are refused until the script asks for a connection
+	holdToA  bool // frames toward the acceptor / the initiator stay in flight (a silent network, not a cut)
+	holdToI  bool
+	start    time.Time
+	Events   []Stamp // every frame an engine transmitted (Rx false) or was handed (Rx true), in the order it happened
+	Closes   []Close // connection ends: who closed (an engine or the harness) and when
 	Dials    int
 	Refused  int
 	connSeen int
 }
 
-func NewNet() *Net { return &Net{} }
+func NewNet() *Net { return &Net{start: time.Now()} }
+
+// Stamp: one frame on the wire with its (virtual) instant.
+type Stamp struct {
+	T     time.Duration
+	Rx    bool // false: the frame left an engine; true: the frame was handed to an engine
+	FromI bool // the frame travels from the initiator to the acceptor
+	Type  string
+	HB    int // HeartBtInt(108) of a Logon
+	ID    string // TestReqID(112)
+	Seq   int
+	Dup   bool
+}
+
+// Close: the connection ended at T; ByHarness for a cut, otherwise the engine on side FromI closed its end.
+type Close struct {
+	T         time.Duration
+	ByHarness bool
+	FromI     bool
+}
+
+// Now is the virtual time since the network was created.
+func (n *Net) Now() time.Duration { return time.Since(n.start) }
+
+func (n *Net) stamp(f []byte, fromI bool) Stamp {
+	st := Stamp{T: n.Now(), FromI: fromI}
+	if m, err := fixscan.Scan(f); err == nil {
+		st.Type, st.Seq, st.Dup = m.Type(), m.Seq(), m.PossDup()
+		st.ID, _ = m.Get(112)
+		st.HB, _ = m.Int(108)
+	}
+	return st
+}
+
+// Hold keeps frames toward one engine in flight (on) or lets them through again (off).
+func (n *Net) Hold(toA, on bool) {
+	n.mu.Lock()
+	if toA {
+		n.holdToA = on
+	} else {
+		n.holdToI = on
+	}
+	n.mu.Unlock()
+}
+
+// Held tells whether frames toward that engine are being held.
+func (n *Net) Held(toA bool) bool {
+	n.mu.Lock()
+	defer n.mu.Unlock()
+	if toA {
+		return n.holdToA
+	}
+	return n.holdToI
+}
 
 // Listen is the acceptor's NewListenerCallback.
 func (n *Net) Listen(address string, _ *tls.Config) (net.Listener, error) {
@@ -230,6 +303,11 @@ func (n *Net) Forward(toA bool) []byte {
 	if f == nil {
 		return nil
 	}
+	st := n.stamp(f, toA)
+	st.Rx = true
+	n.mu.Lock()
+	n.Events = append(n.Events, st)
+	n.mu.Unlock()
 	if _, err := dst.Write(f); err != nil {
 		l.kill()
 	}
@@ -247,6 +325,9 @@ func (n *Net) Allow(b bool) {
 func (n *Net) Cut() {
 	n.Allow(false)
 	if l := n.link(); l != nil {
+		n.mu.Lock()
+		n.Closes = append(n.Closes, Close{T: n.Now(), ByHarness: true})
+		n.mu.Unlock()
 		l.kill()
 	}
 }
@@ -259,6 +340,11 @@ type app struct {
 	Logons    int
 	Logouts   int
 	on        bool // an initiator is also told OnLogout when a logon attempt fails: counting would drift
+	now       func() time.Duration
+	Busy      time.Duration // the next FromApp keeps the session's goroutine busy for this long
+	BusyLog   [][2]time.Duration
+	LogonAt   []time.Duration
+	LogoutAt  []time.Duration
 }
 
 func (a *app) OnCreate(quickfix.SessionID) {}
@@ -266,11 +352,17 @@ func (a *app) OnLogon(quickfix.SessionID) {
 	a.mu.Lock()
 	a.Logons++
 	a.on = true
+	if a.now != nil {
+		a.LogonAt = append(a.LogonAt, a.now())
+	}
 	a.mu.Unlock()
 }
 func (a *app) OnLogout(quickfix.SessionID) {
 	a.mu.Lock()
 	a.Logouts++
+	if a.now != nil && a.on {
+		a.LogoutAt = append(a.LogoutAt, a.now())
+	}
 	a.on = false
 	a.mu.Unlock()
 }
@@ -281,9 +373,32 @@ func (a *app) FromApp(m *quickfix.Message, _ quickfix.SessionID) quickfix.Messag
 	id, _ := m.Body.GetString(11)
 	a.mu.Lock()
 	a.Delivered = append(a.Delivered, id)
+	busy := a.Busy
+	a.Busy = 0
+	k := -1
+	if busy > 0 && a.now != nil {
+		// recorded when it begins (open-ended), closed when it ends
+		a.BusyLog = append(a.BusyLog, [2]time.Duration{a.now(), 1 << 62})
+		k = len(a.BusyLog) - 1
+	}
 	a.mu.Unlock()
+	if busy > 0 {
+		time.Sleep(busy) // (virtual time inside a bubble)
+		a.mu.Lock()
+		if k >= 0 {
+			a.BusyLog[k][1] = a.now()
+		}
+		a.mu.Unlock()
+	}
 	return nil
 }
+// SetBusy: the next FromApp keeps the session's goroutine busy for d.
+func (a *app) SetBusy(d time.Duration) {
+	a.mu.Lock()
+	a.Busy = d
+	a.mu.Unlock()
+}
+
 func (a *app) delivered() []string {
 	a.mu.Lock()
 	defer a.mu.Unlock()
@@ -315,7 +430,8 @@ type Sys struct {
 	SentI, SentA []string
 	nI, nA       int
 	Trace        []string
-	HB           int
+	HB           int // the initiator's HeartBtInt (announced in its Logon)
+	AccHB        int // > 0: the acceptor is configured with HeartBtIntOverride=Y and this interval
 }
 
 func (s *Sys) idI() quickfix.SessionID {
@@ -344,6 +460,10 @@ func (s *Sys) settings(initiator bool) *quickfix.Settings {
 		ss.Set(config.SenderCompID, "A"+s.tag)
 		ss.Set(config.TargetCompID, "I"+s.tag)
 		ss.Set(config.SocketAcceptPort, fmt.Sprint(port))
+		if s.AccHB > 0 {
+			ss.Set(config.HeartBtIntOverride, "Y")
+			ss.Set(config.HeartBtInt, fmt.Sprint(s.AccHB))
+		}
 	}
 	if _, err := st.AddSession(ss); err != nil {
 		panic(err)
@@ -379,8 +499,12 @@ func (s *Sys) startA() error {
 }
 
 // New builds both engines (acceptor first) and lets the initiator make its first connection attempt.
-func New(ctl Ctl, begin, dir, tag string) (*Sys, error) {
-	s := &Sys{ctl: ctl, Net: NewNet(), begin: begin, dir: dir, tag: tag, AppI: &app{}, AppA: &app{}, HB: 30}
+func New(ctl Ctl, begin, dir, tag string) (*Sys, error) { return NewHB(ctl, begin, dir, tag, 30, 0) }
+
+// NewHB: with the initiator's heartbeat interval and, if accHB > 0, an acceptor that overrides it.
+func NewHB(ctl Ctl, begin, dir, tag string, hb, accHB int) (*Sys, error) {
+	s := &Sys{ctl: ctl, Net: NewNet(), begin: begin, dir: dir, tag: tag, AppI: &app{}, AppA: &app{}, HB: hb, AccHB: accHB}
+	s.AppI.now, s.AppA.now = s.Net.Now, s.Net.Now
 	if err := s.startA(); err != nil {
 		return nil, err
 	}
@@ -413,6 +537,12 @@ func (s *Sys) Close() {
 func (s *Sys) drainLogonTimers() {
 	s.ctl.Sleep(11 * time.Second)
 	s.ctl.Barrier()
+	// a session that is still inside an application callback has not noticed the end of the connection yet: stopped
+	// now it would initiate a logout, whose LogoutTimeout timer (same pattern) outlives the run loop
+	for i := 0; i < 200 && (s.AppI.loggedOn() || s.AppA.loggedOn()); i++ {
+		s.ctl.Sleep(time.Second)
+		s.ctl.Barrier()
+	}
 }
 
 func (s *Sys) note(f string, a ...any) { s.Trace = append(s.Trace, fmt.Sprintf(f, a...)) }
@@ -527,6 +657,31 @@ func (s *Sys) Restart(onI bool) error {
 	s.acc.Stop()
 	s.ctl.Barrier()
 	return s.startA()
+}
+
+// Flow hands over every frame in flight in the directions that are not held, until nothing more moves.
+func (s *Sys) Flow(max int) bool {
+	for i := 0; i < max; i++ {
+		if !s.Net.Up() {
+			return true
+		}
+		a, b := s.Net.Pending()
+		switch {
+		case a > 0 && !s.Net.Held(true):
+			s.ForwardOne(true)
+		case b > 0 && !s.Net.Held(false):
+			s.ForwardOne(false)
+		default:
+			return true
+		}
+	}
+	return false
+}
+
+// RestartInitiatorHB discards the initiator and recreates it on its store with another heartbeat interval.
+func (s *Sys) RestartInitiatorHB(hb int) error {
+	s.HB = hb
+	return s.Restart(true)
 }
 
 // Quiesce runs the default schedule until nothing is in flight.
